@@ -179,14 +179,40 @@ func (w *Worker) decimalOf(st *State, x *Term, plus bool) []fmtPath {
 		} else if plus {
 			ds = append(ds, mkInt('+'))
 		}
+		// fresh digit variables with the defining (linear) constraint mag = sum d_j*10^j;
+		// keyed by the printed term so that printing the same value twice gives the same bytes
+		sum := mkInt(0)
 		pw := int64(1)
-		for i := 1; i < c.digits; i++ {
+		digs := make([]*Term, c.digits)
+		for j := 0; j < c.digits; j++ {
+			lo := int64(0)
+			if j == c.digits-1 && c.digits > 1 {
+				lo = 1
+			}
+			name := fmt.Sprintf("dig!%d!%d!%d", mag.id, c.digits, j)
+			d := mkVar(name, SInt, lo, 9)
+			digs[j] = d
+			s.pc = append(s.pc[:len(s.pc):len(s.pc)],
+				intern(&Term{op: OpLe, sort: SBool, args: []*Term{mkInt(lo), d}}),
+				intern(&Term{op: OpLe, sort: SBool, args: []*Term{d, mkInt(9)}}))
+			sum = mkAdd(sum, mkMul(d, mkInt(pw)))
 			pw *= 10
 		}
+		s.pc = append(s.pc, intern(&Term{op: OpEq, sort: SBool, args: []*Term{mag, sum}}))
+		if s.model != nil {
+			mv := s.model.eval(mag)
+			m2 := &Model{vals: make(map[string]int64, len(s.model.vals)+c.digits), uf: s.model.uf}
+			for k, v := range s.model.vals {
+				m2.vals[k] = v
+			}
+			for j := 0; j < c.digits; j++ {
+				m2.vals[digs[j].name] = mv % 10
+				mv /= 10
+			}
+			s.model = m2
+		}
 		for j := c.digits - 1; j >= 0; j-- {
-			d := mkEMod(mkEDiv(mag, mkInt(pw)), mkInt(10))
-			ds = append(ds, mkAdd(d, mkInt('0')))
-			pw /= 10
+			ds = append(ds, mkAdd(digs[j], mkInt('0')))
 		}
 		out = append(out, fmtPath{st: s, parts: ds})
 	}
@@ -194,11 +220,11 @@ func (w *Worker) decimalOf(st *State, x *Term, plus bool) []fmtPath {
 }
 
 type fmtSpec struct {
-	verb               byte
-	plus, minus, zero  bool
-	sharp, space       bool
-	width, prec        int
-	hasWidth, hasPrec  bool
+	verb              byte
+	plus, minus, zero bool
+	sharp, space      bool
+	width, prec       int
+	hasWidth, hasPrec bool
 }
 
 func pad(ts []*Term, sp fmtSpec) []*Term {
